@@ -5,6 +5,7 @@ replayed for every path). A state is the content of the implementation's cache p
 from __future__ import annotations
 
 import collections
+import copy
 import contextlib
 import io
 import itertools
@@ -25,7 +26,7 @@ RULE = ("G-DAG pipelines (N<=2 all, N=3 chain/diamond/fan family; decorated with
         "x cache type {simple, lru, hybrid, disk} x histories up to length L over the alphabet {call(output, cut in arg_combinations, values in {1,2} per name, and the same with each defaulted root argument omitted, full_output F/T), "
         "update_defaults, update_bound, replace(function with another body)}; every step is checked against the uncached twin and against the documented root-argument-key "
         "cache model. quick: L=2 without mutations, and L=3 for the default/bound-decorated N=2 pipelines where the third step directly follows a mutation "
-        "(call; mutation; call); thorough: L=3 everywhere. Map part: cached vs uncached map with repeated input values (also with DIFFERENT values of EQUAL Python hash: -1/-2, 0/2**61-1; and with every user function carrying the same __name__), sequential and deferred executor; three maps of a cached function with map-scope resources delivered through resources_variable")
+        "(call; mutation; call); thorough: L=3 everywhere. Map part: cached vs uncached map with repeated input values (also with DIFFERENT values of EQUAL Python hash: -1/-2, 0/2**61-1; and with every user function carrying the same __name__), sequential and deferred executor; three maps of a cached function with map-scope resources delivered through resources_variable; two pipelines with the same names but other function bodies built one after the other with default cache settings (or one shared cache_kwargs dict), all four cache types; the same list / dict / ndarray object passed twice with an in-place change in between (pipeline(), run, map)")
 ASSUMPTIONS = ["a cached pipeline and its uncached twin are rebuilt from the same spec for every path (no shared state)",
                "the documented key model (key = output name + values of the ROOT arguments) is used only to CLASSIFY a mismatch as the known cache-key design finding; the verdict comes from the uncached twin",
                "HybridCache durations are virtual (time.perf_counter/monotonic patched to +1.0 per read inside pipefunc modules)",
@@ -666,6 +667,13 @@ def plan(tier, seed):
         for spec in spec_family("N3-all"):
             units.append(("N3-all-depth2-simple", ("bfs", {"spec": spec, "cached": [True] * 3, "cache": "simple"}, 2, False)))
     for ct in ("simple", "lru", "hybrid", "disk"):
+        for kwm in ("default", "one-dict"):
+            units.append(("two-pipelines-same-names", ("twopipes", {"cache": ct, "kwargs": kwm})))
+    for ct in ("simple", "lru", "hybrid", "disk"):
+        for kind in ("list", "dict", "ndarray"):
+            for entry in ("call", "run", "map"):
+                units.append(("mutable-argument-changed-in-place", ("mutarg", {"cache": ct, "kind": kind, "entry": entry})))
+    for ct in ("simple", "lru", "hybrid", "disk"):
         units.append(("map-cached-vs-uncached", ("mapres", {"cache": ct})))
     for pipe in c03.PIPES:
         for ct in ("simple", "lru", "hybrid", "disk"):
@@ -687,6 +695,88 @@ def plan(tier, seed):
     for st, us in by.items():
         r = seed % len(us)
         out.extend(us[r:] + us[:r])
+    return out
+
+
+def two_pipelines_case(cfg):
+    """two pipelines with the SAME output and parameter names but different function bodies, built one after the other with
+    the cache configuration left at its defaults (or sharing one user-supplied kwargs dict): the cache is per pipeline, so
+    the second pipeline must return its own values"""
+    _vclock()
+    c03._install_one_manager()
+    spec_a = {"funcs": [{"name": "f0", "params": ["x"], "outs": ["o0"]}, {"name": "f1", "params": ["o0", "y"], "outs": ["o1"]}]}
+    spec_b = copy.deepcopy(spec_a)
+    for f in spec_b["funcs"]:
+        f["tag"] = "h" + f["name"][1:]
+    out = []
+    shared_kwargs = {} if cfg["kwargs"] == "one-dict" else None
+    try:
+        with warnings.catch_warnings(), contextlib.redirect_stdout(io.StringIO()):
+            warnings.simplefilter("ignore")
+            for which, spec in (("first", spec_a), ("second", spec_b)):
+                p = gen_dag.build(spec, cache=True, cache_type=cfg["cache"], **({"cache_kwargs": shared_kwargs} if shared_kwargs is not None else {}))
+                for o in ("o0", "o1"):
+                    kw = {"x": "1", "y": "2"} if o == "o1" else {"x": "1"}
+                    got = p(o, **kw)
+                    want = gen_dag.ref_eval(spec, o, kw).value
+                    if terms.T(got) != terms.T(want):
+                        out.append(({"kind": "value-mismatch", "stage": "two-pipelines", "cache": cfg["cache"], "kwargs": cfg["kwargs"]},
+                                    f"{which} pipeline (cache_type={cfg['cache']}, cache_kwargs {cfg['kwargs']}): {o} = {terms.T(got)}, uncached {terms.T(want)}"))
+                if getattr(p, "cache", None) is not None and which == "second":
+                    p.cache.clear()
+    except Exception as e:  # noqa: BLE001
+        out.append((findings.exc_sig(e, stage="two-pipelines", cache=cfg["cache"]), f"two pipelines with default cache settings raised {type(e).__name__}: {str(e)[:120]}"))
+    return out
+
+
+def mutated_arg_case(cfg):
+    """the SAME mutable object passed twice with an in-place change in between (list / dict / ndarray; through pipeline(),
+    run and map): the key must follow the value of the argument at call time, not its identity"""
+    from pipefunc import Pipeline
+    _vclock()
+    c03._install_one_manager()
+    folder = boot.mkscratch("c09a-") if cfg["cache"] == "disk" else None
+    out = []
+    try:
+        kw = {"cache_dir": folder, "lru_shared": False} if cfg["cache"] == "disk" else ({"shared": False} if cfg["cache"] in ("lru", "hybrid") else {})
+
+        def f(x):
+            return "f(" + repr(x.tolist() if isinstance(x, np.ndarray) else x) + ")"
+
+        def g(e):
+            return f"g({e})"
+        kind = cfg["kind"]
+        obj = {"list": lambda: [1, 2], "dict": lambda: {"a": 1}, "ndarray": lambda: np.array([1, 2])}[kind]()
+
+        def mutate():
+            if kind == "list":
+                obj[0] = 9
+            elif kind == "dict":
+                obj["a"] = 9
+            else:
+                obj[0] = 9
+        with warnings.catch_warnings(), contextlib.redirect_stdout(io.StringIO()):
+            warnings.simplefilter("ignore")
+            if cfg["entry"] == "map":
+                p = Pipeline([PipeFunc(g, "y", mapspec="e[i] -> y[i]", cache=True)], cache_type=cfg["cache"], cache_kwargs=kw)
+                call = lambda: [str(v) for v in p.map({"e": obj if kind != "dict" else list(obj.values())}, parallel=False, storage="dict")["y"].output]  # noqa: E731
+                want = lambda: [g(e) for e in (obj if kind != "dict" else obj.values())]  # noqa: E731
+            else:
+                p = Pipeline([PipeFunc(f, "y", cache=True)], cache_type=cfg["cache"], cache_kwargs=kw)
+                call = (lambda: p("y", x=obj)) if cfg["entry"] == "call" else (lambda: p.run("y", kwargs={"x": obj}))
+                want = lambda: f(obj)  # noqa: E731
+            for step in ("before", "after the in-place change"):
+                got, exp = call(), want()
+                if got != exp:
+                    out.append(({"kind": "value-mismatch", "stage": "mutated-argument", "cache": cfg["cache"], "arg": kind, "entry": cfg["entry"]},
+                                f"cached {cfg['entry']} with a {kind} argument {step}: {got}, uncached {exp}"))
+                    break
+                mutate()
+    except Exception as e:  # noqa: BLE001
+        out.append((findings.exc_sig(e, stage="mutated-argument", cache=cfg["cache"]), f"cached call with a mutable {cfg['kind']} argument raised {type(e).__name__}: {str(e)[:120]}"))
+    finally:
+        if folder:
+            shutil.rmtree(folder, ignore_errors=True)
     return out
 
 
@@ -733,6 +823,24 @@ def run_unit(unit):
         acc.stratum("bfs-" + cfg["cache"])
         if all(cfg["cached"]) and cfg["cache"] == "simple" and len(cfg["spec"]["funcs"]) == 3:
             acc.sample({"spec": cfg["spec"], "cached": cfg["cached"], "cache": cfg["cache"], "depth": depth, "step_alphabet": n})
+    elif unit[0] == "twopipes":
+        _, cfg = unit
+        acc.case(hash(("twopipes", str(cfg))))
+        acc.states += 2
+        acc.transitions += 4
+        acc.traces += 1
+        acc.stratum("two-pipelines-same-names")
+        for sig, text in two_pipelines_case(cfg):
+            acc.violation(sig, {"cfg": cfg, "twopipes": True}, text)
+    elif unit[0] == "mutarg":
+        _, cfg = unit
+        acc.case(hash(("mutarg", str(cfg))))
+        acc.states += 2
+        acc.transitions += 2
+        acc.traces += 1
+        acc.stratum("mutable-argument-changed-in-place")
+        for sig, text in mutated_arg_case(cfg):
+            acc.violation(sig, {"cfg": cfg, "mutarg": True}, text)
     elif unit[0] == "mapres":
         _, cfg = unit
         acc.case(hash(("mapres", str(cfg))))
@@ -789,6 +897,10 @@ def replay(art):
     if art.get("mapdfs"):
         from .. import explore
         return [s for s, _ in map_case_deferred(art["cfg"], explore.Chooser(art["choices"]))]
+    if art.get("twopipes"):
+        return [s for s, _ in two_pipelines_case(art["cfg"])]
+    if art.get("mutarg"):
+        return [s for s, _ in mutated_arg_case(art["cfg"])]
     if art.get("mapres"):
         return [s for s, _ in map_resources_case(art["cfg"])]
     if art.get("map"):
